@@ -256,8 +256,8 @@ fn expr_cols(e: &E, out: &mut Vec<usize>) {
     match e {
         E::Lit(_) => {}
         E::Col(i) => out.push(*i),
-        E::Not(a) | E::Neg(a) | E::Pos(a) | E::IsNull(_, a) => expr_cols(a, out),
-        E::And(a, b) | E::Or(a, b) | E::Cmp(_, a, b) | E::Arith(_, a, b) | E::Like(_, a, b) => {
+        E::Not(a) | E::Neg(a) | E::Pos(a) | E::IsNull(_, a) | E::StrFn(_, a) => expr_cols(a, out),
+        E::And(a, b) | E::Or(a, b) | E::Cmp(_, a, b) | E::Arith(_, a, b) | E::Like(_, a, b) | E::Concat(a, b) => {
             expr_cols(a, out);
             expr_cols(b, out)
         }
@@ -1172,8 +1172,8 @@ fn to_vexpr(e: &E) -> vp::VExpr {
         E::IsNull(n, a) => vp::VExpr::IsNull(*n, b(a)),
         E::Between(n, a, lo, hi) => vp::VExpr::Between(*n, b(a), b(lo), b(hi)),
         E::InList(n, a, xs) => vp::VExpr::InList(*n, b(a), xs.iter().map(to_vexpr).collect()),
-        // CASE is not part of the rule facade; the plan generators never produce it
-        E::Case(..) => vp::VExpr::Lit(vp::VLit::Null),
+        // CASE and the string functions are not part of the rule facade; the plan generators never produce them
+        E::Case(..) | E::StrFn(..) | E::Concat(..) => vp::VExpr::Lit(vp::VLit::Null),
     }
 }
 
